@@ -292,8 +292,8 @@ def jobs(tier):
     out = []
     REP = [(ord("a"), ord("z")), (ord("A"), ord("Z")), (ord("0"), ord("9")), (ord("_"), ord("_")), (ord("."), ord(".")),
            (ord("-"), ord("-")), (ord(" "), ord(" ")), (0xE9, 0xE9)]
-    out.append(CfSafeName(3 if tier == "quick" else 5))
-    out.append(CfSafeName(4 if tier == "quick" else 6, REP))
+    out.append(CfSafeName(3 if tier == "quick" else 7))
+    out.append(CfSafeName(4 if tier == "quick" else 8, REP))
     n = 2
     for wd in (False, True):
         for wa in (False, True):
@@ -310,7 +310,7 @@ def jobs(tier):
     out.append(Store(3, ["temp", "salt"], ["spike_test"], True, True, aggregate=True, partial=True))
     out.append(Store(0, ["temp"], ["spike_test"], True, True))
     out.append(Store(3, ["temp"], ["spike_test", "gross_range_test"], True, True, partial=True))
-    out.append(Collision(2))
+    out.append(Collision(2 if tier == "quick" else 4))
     out.append(Store(2, ["a b", "a_b"], ["spike_test"], False, False))
     out.append(CfSafeName(3, canary="keep_dot"))
     out.append(Store(2, ["temp"], ["spike_test"], False, False, aggregate=True, canary="rollup_min"))
@@ -326,12 +326,12 @@ ASSUMPTIONS = ["pandas DataFrame environment model (column assignment, masked->N
 
 
 def bounds(tier):
-    return {"string_length": "<=3 any code point, <=4 representative alphabet" if tier == "quick" else "<=5 / <=6", "rows": "0..3",
+    return {"string_length": "<=3 any code point, <=4 representative alphabet" if tier == "quick" else "<=7 / <=8", "rows": "0..3",
             "streams": "1..2", "tests": "1..2", "filters": "include/exclude by stream id, test name, function (enumerated)"}
 
 
 LEVEL_TEXT = ("bounded symbolic model checking: cf_safe_name is executed on bounded symbolic strings (every code point) and z3 proves the "
               "CF-safety and in-place mapping; PandasStore.save/compute_aggregate are executed on symbolic flags/data/axes with "
               "enumerated ids and filters and z3 proves column set, row alignment and the roll-up column")
-LEVEL_NOTE = "bounds: strings<=3..6 chars, rows<=3; DataFrame is an environment model validated by per-path witnesses"
+LEVEL_NOTE = "bounds: strings<=3..4 (quick) / 7..8 (thorough) chars, rows<=3; DataFrame is an environment model validated by per-path witnesses"
 TECHNIQUE = "symbolic execution of the real Python source over modelled pandas/regex + z3 (strings as bounded code-point vectors)"
